@@ -18,6 +18,7 @@ import os
 import random
 import shutil
 import tempfile
+import time
 
 from harness import core
 from harness.core import to_dec2, text_codes
@@ -302,7 +303,7 @@ def execute(case):
                 except Exception as ex:
                     mism.append({'step': step, 'clause': 'Unprojectable', 'id': oid,
                                  'detail': '%s: %s' % (type(ex).__name__, ex),
-                                 'fam': famof[oid], 'last': (chain[oid] or ['construct'])[-1]})
+                                 'fam': famof[oid], 'chain': '>'.join(chain[oid])})
                     continue
                 events.append({'ev': 'obs', 'id': oid, 'c': c})
                 meta.append({'fam': famof[oid], 'last': (chain[oid] or ['construct'])[-1],
@@ -318,10 +319,16 @@ def execute(case):
                     bad = expected_mismatch(objs[oid], op['ws'][p], origins, names)
                     if bad:
                         mism.append({'step': step, 'clause': 'ReplayState', 'pos': p + 1, 'detail': bad,
-                                     'fam': famof[oid], 'last': (chain[oid] or ['construct'])[-1]})
+                                     'fam': famof[oid], 'chain': '>'.join(chain[oid])})
     finally:
         shutil.rmtree(tmpdir, ignore_errors=True)
     return events, meta, mism, stats
+
+
+def _tags(case, fam, chain_str):
+    acts = [a for a in (chain_str or '').split('>') if a]
+    return {'kind': case['kind'], 'fam': fam, 'last': acts[-1] if acts else 'construct',
+            'reloaded': any(a in ('json', 'dict') for a in acts), 'filed': 'thermdat' in acts}
 
 
 def _safe_execute(case):
@@ -331,7 +338,7 @@ def _safe_execute(case):
         raise
     except Exception as ex:          # the library raised while the species were being built
         return [], [], [{'step': -1, 'clause': 'Raises', 'detail': '%s: %s' % (type(ex).__name__, ex),
-                         'fam': '?', 'last': 'construct'}], \
+                         'fam': '?', 'chain': ''}], \
                {'ops': {}, 'obs_exact': 0, 'obs_nine': 0, 'obs_second_trip': 0, 'maxchain': 0}
 
 
@@ -374,6 +381,8 @@ def run(ctx):
         'origin after every call); non-trivial = at least two round trips of different kinds; distinct by '
         '(origins, op sequence, kind)')
     _check_table()
+    t0 = time.time()
+    phases = ctx.coverage.setdefault('phase_wall_s', {})
     if ctx.replay_case is not None:
         cases = [ctx.replay_case['case']]
     else:
@@ -383,6 +392,8 @@ def run(ctx):
             if bad.ok or bad.violated != inv:
                 raise core.MachineryError('%s should be rejected on %s (got %r)' % (cfg, inv, bad.violated))
             ctx.notes.append('design model rejects %s: %s violated' % (cfg, bad.violated))
+        phases['design_models'] = round(time.time() - t0, 1)
+        t0 = time.time()
         rnd = random.Random(ctx.seed)
         behs = _behaviours('MC_Session_beh')
         ctx.coverage['tlc_behaviours_depth3'] = len(behs)
@@ -400,7 +411,11 @@ def run(ctx):
         for lst, kind, n in plan:
             for b in lst[:n]:
                 cases.append(_beh_to_case(b, kind, '%s%d' % (kind[0], len(cases)), rnd))
+    phases['behaviours'] = round(time.time() - t0, 1)
+    t0 = time.time()
     results = core.pmap(_safe_execute, cases)
+    phases['library_runs'] = round(time.time() - t0, 1)
+    t0 = time.time()
     traces, metas = [], []
     tot = {'ops': {}, 'obs_exact': 0, 'obs_nine': 0, 'obs_second_trip': 0, 'maxchain': 0}
     for tid, (case, (events, meta, mism, stats)) in enumerate(zip(cases, results)):
@@ -410,8 +425,7 @@ def run(ctx):
             ctx.nontrivial(json.dumps([case['kind'], [[g['fam'], g['gas'], g['flag'], g['cov']] for g in case['orig']],
                                        [[o['act'], o['src'], o['keep']] for o in case['ops']]]))
         for m in mism:
-            ctx.violation(m['clause'], case, tags={'kind': case['kind'], 'fam': m.get('fam'), 'last': m.get('last')},
-                          detail=m)
+            ctx.violation(m['clause'], case, tags=_tags(case, m.get('fam'), m.get('chain')), detail=m)
         traces.append((tid, events))
         metas.append(meta)
         for k, v in stats['ops'].items():
@@ -423,6 +437,7 @@ def run(ctx):
             ctx.sample({'kind': case['kind'], 'origins': [[g['fam'], g['gas'], g['flag'], g['cov']] for g in case['orig']],
                         'ops': [[o['act'], o['src'], o['keep']] for o in case['ops']]})
     fails, tstats = core.validate_traces('Trace_Session', 'Trace', traces)
+    phases['trace_validation'] = round(time.time() - t0, 1)
     ctx.count('traces_validated_against_impl', len(traces))
     ctx.coverage['trace_lines'] = tstats['lines']
     ctx.coverage['clause_evaluations'] = tot
@@ -433,10 +448,10 @@ def run(ctx):
     by_case = {}
     for tid, idx, clause in fails:
         m = metas[tid][idx]
-        key = (tid, clause, m['fam'], m['last'])
+        key = (tid, clause, m['fam'], m['chain'])
         by_case.setdefault(key, []).append((idx, m.get('chain'), m.get('raised')))
-    for (tid, clause, fam, last), lst in sorted(by_case.items(), key=lambda kv: (kv[0][0], kv[0][1], str(kv[0][2:]))):
-        ctx.violation(clause, cases[tid], tags={'kind': cases[tid]['kind'], 'fam': fam, 'last': last},
+    for (tid, clause, fam, ch), lst in sorted(by_case.items(), key=lambda kv: (kv[0][0], kv[0][1], str(kv[0][2:]))):
+        ctx.violation(clause, cases[tid], tags=_tags(cases[tid], fam, ch),
                       detail={'event_indices': [i for i, _, _ in lst][:10], 'chains': sorted({c for _, c, _ in lst if c})[:5],
                               'raised': [r for _, _, r in lst if r][:2]})
     ctx.assume('thermdat is applied only to NASA-7 species the Chemkin format can carry: pressure adjustment not '
